@@ -261,8 +261,9 @@ impl Curve3 {
 fn resample_by_max_spacing(curve: &Curve3, max_spacing: f64) -> Curve3 {
     // Find the number of points it will take to ensure that the spacing is less than the max
     // spacing
+    // n intervals no longer than max_spacing need n + 1 points
     let n = (curve.length() / max_spacing).ceil() as usize;
-    resample_by_count(curve, n)
+    resample_by_count(curve, n + 1)
 }
 
 fn resample_by_spacing(curve: &Curve3, spacing: f64) -> Curve3 {
